@@ -12,7 +12,8 @@ import re
 
 from . import common
 
-PROOFS = ["proofs/AntsStepsProofs.v", "models/AntsSteps.v", "proofs/RaceAntsProofs.v", "models/RaceAnts.v"]
+PROOFS = ["proofs/AntsStepsProofs.v", "models/AntsSteps.v", "proofs/RaceAntsProofs.v", "models/RaceAnts.v",
+          "proofs/RaceAntsInv.v", "proofs/RaceAntsCases.v"]
 FT_ENV = dict(os.environ, GOMAXPROCS="2")
 
 # timeouts (ns) of the Send ops of a case, by global Send index: pairwise distinct, no small sum of
